@@ -819,19 +819,15 @@ func (g *gen) ref(sn *Snap, n Node) SX {
 		if b == "" {
 			b = "master"
 		}
-		// branch~n walks the branch from a node found by ranging over a Go map: once a merge has
-		// given master several lineages the answer depends on iteration order, so only ask then
-		// for named branches
-		if g.rng.Chance(0.2) && (n.Branch != "" || !hasMerge(sn, n.Repo)) {
+		if g.rng.Chance(0.2) {
 			return Cat(T(rv), L(":"+b+"~0"))
 		}
 		return Cat(T(rv), L(":"+b))
 	}
 }
 
-// root:master~n after a merge: the server resolves it through a loop over a Go map and may pick any
-// lineage of master, or fail; the model accepts whichever it was (Model/RepoRun.v: first_pick).
-// Only used for the node a single-node request addresses.
+// root:master~n after a merge: the head of the default branch is then the merge node (the newest
+// node of branch ""), and the walk goes up its last parent.
 func (g *gen) tildeRef(sn *Snap, n Node, orig SX) SX {
 	rv := rootVersion(sn, n.Repo)
 	if rv < 0 || !hasMerge(sn, n.Repo) || !g.rng.Chance(0.12) {
@@ -858,9 +854,6 @@ func (g *gen) bogusRef(sn *Snap) SX {
 	case 5:
 		return Cat(T(n.VersionID), L(":nosuchbranch"))
 	case 6:
-		if hasMerge(sn, n.Repo) {
-			return Cat(T(n.VersionID), L(":master~x"))
-		}
 		return Cat(T(n.VersionID), L(":master~"+strconv.Itoa(g.rng.Intn(4))))
 	case 7:
 		return Cat(P(n.VersionID, 5), L(":"))
@@ -1529,11 +1522,10 @@ func enumerate(run *lib.Run, total map[string]int) int {
 	return count
 }
 
-// the recorded finding (findings/C07.json, class 30): root committed; V = newversion, committed;
-// W = branch "side", committed; U = newversion V; a second newversion on V is refused; merge [V, W]
-// is accepted and its node, which carries the empty branch name, is a second child of V on the
-// default branch; root:master~0 then resolves to U, to the merge node, or fails, by map order
-func findingCase() []Req {
+// the DAG of the C02 driver: root committed; V = newversion, committed; W = branch "side", committed;
+// U = newversion V; a second newversion on V is refused; merge [V, W] is accepted, its node carries
+// the empty branch name and becomes the head of the default branch; root:master~0 names it
+func c02Case() []Req {
 	return []Req{{Kind: "newrepo"}, {Kind: "commit", U: T(1)}, {Kind: "newversion", U: T(1), Assign: L("")}, {Kind: "commit", U: T(2)},
 		{Kind: "branch", U: T(1), Branch: L("side"), Assign: L("")}, {Kind: "commit", U: T(3)},
 		{Kind: "newversion", U: T(2), Assign: L("")}, {Kind: "newversion", U: T(2), Assign: L("")},
@@ -1556,11 +1548,7 @@ func main() {
 	bytes := 0
 	add := func(kind string, so seqOut) {
 		key := fmt.Sprintf("%s|%v|%d", kind, so.kinds, so.maxNode)
-		tag := 0
-		if kind == "finding" {
-			tag = 1
-		}
-		run.Add(kind, fmt.Sprintf("(%d%%nat, %s)", tag, so.term), jcase{Kind: kind, Steps: so.steps}, key)
+		run.Add(kind, fmt.Sprintf("(0%%nat, %s)", so.term), jcase{Kind: kind, Steps: so.steps}, key)
 		bytes += len(so.term)
 		for k, v := range so.kinds {
 			total["req:"+k] += v
@@ -1583,11 +1571,7 @@ func main() {
 			fmt.Fprintln(os.Stderr, "replay:", err)
 			os.Exit(2)
 		}
-		kind := "replay"
-		if c.Kind == "finding" {
-			kind = "finding"
-		}
-		add(kind, runSeq(lib.NewRand(o.Seed), replayList(c.Steps)))
+		add("replay", runSeq(lib.NewRand(o.Seed), replayList(c.Steps)))
 		run.Finish("kcase", "replay", tail)
 		return
 	}
@@ -1595,7 +1579,7 @@ func main() {
 	for _, steps := range corpus() {
 		add("corpus", runSeq(lib.NewRand(o.Seed), replayList(steps)))
 	}
-	add("finding", runSeq(lib.NewRand(o.Seed), replayList(findingCase())))
+	add("corpus", runSeq(lib.NewRand(o.Seed), replayList(c02Case())))
 	budget, maxSeq := 145000, 300
 	if o.Thorough() {
 		budget, maxSeq = 700000, 3000
